@@ -1369,6 +1369,34 @@ theorem tame3_sound_on_table : ∀ c ∈ Proofs.FromMs.tabCmds, ∀ correct,
     Proofs.FromMs.tabClass3 c = some (true, correct) → correct = true :=
   Proofs.FromMs.tab_sound3
 
+/-! ### 13. time groups taken from different fragments
+
+`Tame13 pr`: every time group of the command is a `GoodGroup12` or a `GoodGroup3`; which one may differ from group to
+group (the run-level invariant of §12 only needs each group to be one or the other). It contains `Tame''` and `Tame3`. -/
+
+/-- **C08 on `Tame13`.** -/
+theorem fromMs_sem13 (c : List String) (N0 : Q) (mg : MsGraph) (sem : DemogSem) (pr : Parsed)
+    (h : fromMs c N0 none = .ok mg) (hsem : msSem c N0 = .ok sem) (hp : parsersAgree c = true)
+    (hpr : parse c = .ok pr) (ht : Tame13 pr = true) :
+    SemAgree (msSem c N0) (resultSem mg) = true :=
+  Proofs.FromMs.fromMs_sem_frag13 h hsem hp hpr ht
+
+theorem tame13_of_tame3 (pr : Parsed) (h : Tame3 pr = true) : Tame13 pr = true :=
+  Proofs.FromMs.tame13_of_tame3 _ _ h
+
+theorem tame13_of_tame'' (pr : Parsed) (h : Tame'' pr = true) : Tame13 pr = true :=
+  Proofs.FromMs.tame13_of_tame12 _ _ h
+
+/-- non-vacuity: a pulse chain at one time (a `GoodGroup3` that is no `GoodGroup12`) followed, at a later time, by the
+two-ancestor encoding of `to_ms`; every hypothesis of `fromMs_sem13` holds, and so does the conclusion -/
+def mixedGroups : List String :=
+  ["-I", "3", "1", "1", "1", "-es", "1.0", "1", "0.5", "-ej", "1.0", "4", "2", "-es", "1.0", "2", "0.25", "-ej", "1.0", "5", "3",
+   "-es", "2.0", "1", "0.25", "-ej", "2.0", "6", "2", "-ej", "2.0", "1", "3"]
+
+example : (match fromMs mixedGroups 1 none, msSem mixedGroups 1, parse mixedGroups with
+    | .ok mg, .ok _, .ok pr => parsersAgree mixedGroups && Tame13 pr && !Tame' pr && SemAgree (msSem mixedGroups 1) (resultSem mg)
+    | _, _, _ => false) = true := by decide +kernel
+
 /-! ### what is missing
 
 1. `GoodGroup2` (§11) is a sufficient condition, exact for groups of at most two `-es`/`-ej` options over three
